@@ -190,4 +190,45 @@ theorem NoPanic.lengthCount {f : Parser β Nat} {g : Parser β α} (hf : NoPanic
     NoPanic (lengthCount f g) :=
   NoPanic.bind hf fun n => NoPanic.countP hg n
 
+/-! ### never answers `Incomplete` -/
+
+def NeverIncomplete (p : Parser β α) : Prop := ∀ i n, p i ≠ .incomplete n
+
+theorem NeverIncomplete.complete (f : Parser β α) : NeverIncomplete (complete f) := by
+  intro i n; unfold Tls.complete; cases h : f i <;> simp
+
+theorem NeverIncomplete.mapP {f : Parser β α} {g : α → γ} (hf : NeverIncomplete f) : NeverIncomplete (mapP f g) := by
+  intro i n; have := hf i; unfold Tls.mapP; cases h : f i <;> simp_all [Res.map]
+
+theorem NeverIncomplete.many1Loop {f : Parser β α} (hf : NeverIncomplete f) : NeverIncomplete (many1Loop f) := by
+  intro i n
+  induction i using many1Loop.induct f with
+  | case1 i k h => unfold Tls.many1Loop; simp [h]
+  | case2 i n' h => exact absurd h (hf i n')
+  | case3 i k h => unfold Tls.many1Loop; simp [h]
+  | case4 i h => unfold Tls.many1Loop; simp [h]
+  | case5 i i1 o h hlt ih =>
+    unfold Tls.many1Loop; simp only [h, hlt, if_true]
+    cases h2 : Tls.many1Loop f i1 <;> simp_all [Res.map]
+  | case6 i i1 o h hlt => unfold Tls.many1Loop; simp [h, hlt]
+
+theorem NeverIncomplete.many1 {f : Parser β α} (hf : NeverIncomplete f) : NeverIncomplete (many1 f) := by
+  intro i n; have := hf i; unfold Tls.many1
+  cases h : f i <;> simp_all
+  rename_i r o
+  have := NeverIncomplete.many1Loop hf r
+  cases h2 : Tls.many1Loop f r <;> simp_all [Res.map]
+
+theorem NeverIncomplete.many0 {f : Parser β α} (hf : NeverIncomplete f) : NeverIncomplete (many0 f) := by
+  intro i n
+  induction i using many0.induct f with
+  | case1 i k h => unfold Tls.many0; simp [h]
+  | case2 i n' h => exact absurd h (hf i n')
+  | case3 i k h => unfold Tls.many0; simp [h]
+  | case4 i h => unfold Tls.many0; simp [h]
+  | case5 i i1 o h hlt ih =>
+    unfold Tls.many0; simp only [h, hlt, if_true]
+    cases h2 : Tls.many0 f i1 <;> simp_all [Res.map]
+  | case6 i i1 o h hlt => unfold Tls.many0; simp [h, hlt]
+
 end Tls
